@@ -1483,4 +1483,11 @@ example : (objectAfter .binary [([.str "a", .str "b", .str "c"], 1), ([.str "a"]
     ∧ (applyOp [([.str "a", .str "b"], (1 : Rat))] (.relabel [(.str "a", .str "b")])).toOption = none := by
   decide +kernel
 
+/-- one term under `relabel_variables`: when the mapping is injective on the term's variables, the new term `frozenset(submap.get(v, v)
+    for v in oldterm)` has, at every assignment `x` of the new labels, the value of the old term at `x ∘ mapping` (the bias is carried
+    over unchanged by `self[newterm] = bias`); the whole-polynomial statement is not proved (`relabel_variables` is tied by correspondence) -/
+theorem poly_object_relabel_term_value_partial (x : Label → Rat) (m : List (Label × Label)) (t : LTerm)
+    (hinj : (t.map (mapLabel m)).Nodup) :
+    termVal x (relabelTerm m t) = termVal (fun v => x (mapLabel m v)) t := relabelTerm_value x m t hinj
+
 end C15
